@@ -45,6 +45,7 @@ class Acc:
         self.evaluations = 0
         self.distinct = set()
         self.counters = {}
+        self.sets = {}
         self.mismatches = []
         self.samples = []
         self.per_key = {}
@@ -72,6 +73,7 @@ class Acc:
             "evaluations": self.evaluations,
             "distinct": sorted(self.distinct),
             "counters": self.counters,
+            "sets": dict((k, sorted(v)) for k, v in self.sets.items()),
             "mismatches": self.mismatches,
             "samples": self.samples,
         }
@@ -260,6 +262,7 @@ def cmp_c02_code(acc, V, src, fileid, crec, co, opc, header, insts):
         if x is None:
             acc.mismatch("C02|%s|no-instruction-at-offset" % src, v=vs(V), file=fileid, path=crec["path"], offset=off)
             return
+        acc.sets.setdefault("opcodes_decoded_v" + vs(V), set()).add(name)
         if x.opcode != op:
             acc.mismatch("C02|%s|opcode" % src, v=vs(V), file=fileid, path=crec["path"], offset=off,
                          expected=op, observed=x.opcode)
@@ -975,6 +978,15 @@ def cmd_tables(args):
                 out["get_opcode_module"][k] = get_opcode_module(vt + (0, "final"), variant).__name__
             except Exception as e:
                 out["get_opcode_module"][k] = "raises:" + type(e).__name__
+    # the float form of a version (deprecated but accepted: 3.8, 2.7 ...); minor numbers above 9 have no float form
+    for vt, pypy in sorted(pairs):
+        if vt[1] > 9 or pypy:
+            continue
+        k = "%d.%d/float" % vt
+        try:
+            out["get_opcode_module"][k] = get_opcode_module(float("%d.%d" % vt), None).__name__
+        except Exception as e:
+            out["get_opcode_module"][k] = "raises:" + type(e).__name__
     # what get_opcode hands out for each reference version
     out["get_opcode"] = {}
     for v in args.get("versions", []):
